@@ -1,0 +1,15 @@
+//go:build verif
+
+package main
+
+import "github.com/feichai0017/NoKV/verifhook"
+
+// txnRetryLimit lets a simulation shrink the retry budget of read-modify-write
+// commands (knob "redis.txn-retries"), so that its exhaustion is reachable with a
+// handful of clients; unset, it is the shipped constant.
+func txnRetryLimit() int {
+	if n := verifhook.Int("redis.txn-retries"); n > 0 {
+		return n
+	}
+	return maxTxnRetries
+}
